@@ -399,6 +399,7 @@ def run(case, ctx):
             if inst[name] == "ListInt":
                 inst.pop(name + "_items", None)          # the companion goes with it
             del inst[name]
+            cloned.discard(name)         # (remove_trait takes the object's own entry away, whichever way it came about)
             m.store.pop(name, None)
             ctx.label("instance-trait-removed")
             interesting = True
